@@ -29,6 +29,7 @@ type c05Desc struct {
 	Seed int64   `json:"seed"`
 	API  string  `json:"api"` // blockstore | blockstore-many | storage-writable | storage-rw | deferred | cli
 	Cfg  lab.Cfg `json:"cfg"`
+	Big  int     `json:"big,omitempty"` // number of tiny honest blocks (large session)
 }
 
 // c05Expect is what the session says the file must hold (nil for CLI outputs, where only
@@ -186,6 +187,16 @@ func runC05(t *mon.T, raw json.RawMessage) {
 		Block: gen.BlockOpts{MaxSize: 300, NoIdentity: false}})
 	if r.Intn(6) == 0 {
 		content.Blocks = nil // a session without puts
+	}
+	if d.Big > 0 {
+		content.Blocks = content.Blocks[:0]
+		for i := 0; i < d.Big; i++ {
+			data := gen.U64(uint64(i) ^ uint64(d.Seed))
+			code := []uint64{0x12, 0x13, 0x11}[i%3]
+			dg, _ := refcar.Hash(code, data)
+			content.Blocks = append(content.Blocks, refcar.Block{Cid: refcar.MakeCidV1(0x55, code, dg), Data: data})
+		}
+		t.Cover("big-sessions")
 	}
 	roots := lab.ToCids(content.Roots, content.NilRoots)
 	m := &lab.Model{Cfg: cfg}
@@ -390,6 +401,9 @@ func genC05(g *mon.G) {
 	for i := 0; i < g.Pick(32, 400); i++ {
 		g.Emit(c05Desc{Seed: r.Int63(), API: "cli"})
 	}
+	for i := 0; i < g.Pick(4, 30); i++ {
+		g.Emit(c05Desc{Seed: r.Int63(), API: apis[i%4], Cfg: lab.Cfg{Sorted: i%2 == 0, IndexPad: uint64(i % 3)}, Big: 17000 + r.Intn(30000)})
+	}
 }
 
 var _ = carv2.PragmaSize
@@ -398,11 +412,11 @@ func init() {
 	Register(&mon.Check{
 		ID:          "C05",
 		Level:       "exploration",
-		Rule:        "cases = seeded writing sessions (0-9 honest blocks incl. duplicates/identity/boundary sizes; sessions without puts) x option matrix (data padding {0,1,7,1413}, index padding {0,1,1024}, both codecs, StoreIdentityCIDs, WriteAsCarV1, whole-CID, allow-dup) x {blockstore Put, blockstore PutMany, storage.NewWritable, storage.NewReadableWritable, deferred writer}; plus archives produced by the built car binary (create, get-dag, filter). Each finalized file is parsed by the reference: pragma, header arithmetic, zero padding, payload = header ‖ stored sections, index = exactly those sections in canonical order, characteristics bits, nothing after the index; then Reader.Inspect(true) and lib.VerifyCar (when all roots are stored)",
+		Rule:        "cases = seeded writing sessions (0-9 honest blocks incl. duplicates/identity/boundary sizes; sessions without puts; a few sessions with 17k-47k tiny blocks) x option matrix (data padding {0,1,7,1413}, index padding {0,1,1024}, both codecs, StoreIdentityCIDs, WriteAsCarV1, whole-CID, allow-dup) x {blockstore Put, blockstore PutMany, storage.NewWritable, storage.NewReadableWritable, deferred writer}; plus archives produced by the built car binary (create, get-dag, filter). Each finalized file is parsed by the reference: pragma, header arithmetic, zero padding, payload = header ‖ stored sections, index = exactly those sections in canonical order, characteristics bits, nothing after the index; then Reader.Inspect(true) and lib.VerifyCar (when all roots are stored)",
 		Assumptions: []string{"refcar parses containers and indexes; lab.Model decides which puts are stored"},
 		Gen:         genC05,
 		Run:         runC05,
 		MinCover: map[string]int{"api:blockstore": 20, "api:storage-writable": 20, "api:storage-rw": 20, "api:deferred": 20, "api:cli": 10, "cli:get-dag": 10, "cli:filter": 10,
-			"v2-files-checked": 200, "verifycar-run": 50, "sessions-without-stored-blocks": 5},
+			"v2-files-checked": 200, "verifycar-run": 50, "sessions-without-stored-blocks": 5, "big-sessions": 4},
 	})
 }
